@@ -124,6 +124,15 @@ class CrudProfile(StoreProfile):
                           "data": {"k%d" % j: j, "comment": "w%d" % j}})
             q.append({"op": "restart"})
         if i == 1 and not q and rng.random() < 0.06:
+            # values that compare equal and are different data (1, True, 1.0), None for a key that is new
+            cfg0 = m.default_config
+            vals = [1, True, 1.0, 0, False, 0.0]
+            rng.shuffle(vals)
+            q += [{"op": "create", "cfg": cfg0, "sid": alpha["F1"], "data": {"ok": vals[0]}}]
+            for v in vals[1:4]:
+                q.append({"op": "write", "cfg": cfg0, "sid": alpha["F1"], "how": rng.choice(["set", "update"]), "data": {"ok": v}})
+            q.append({"op": "write", "cfg": cfg0, "sid": alpha["F1"], "how": "update", "data": {"frames": None}})
+        if i == 1 and not q and rng.random() < 0.06:
             # a dictionary value replaced by a smaller dictionary (later values REPLACE earlier ones, they are not merged)
             cfg0 = m.default_config
             q += [{"op": "create", "cfg": cfg0, "sid": alpha["F1"], "data": {"meta": {"a": 1, "b": [1, 2], "c": {"d": 1}}}},
@@ -239,7 +248,10 @@ class CrudProfile(StoreProfile):
                 d.pop("sid", None)
                 want = st.data(cfg, s)
                 sharers = st.shares_key(cfg, s)
-                ok = d == want or (bool(sharers) and d == st.own[cfg].get(s, {}))   # shared sidecars: permissive
+                # compared as JSON text: 1, 1.0 and True are equal in Python and different data
+                def same(a, b):
+                    return json.dumps(a, sort_keys=True) == json.dumps(b, sort_keys=True)
+                ok = same(d, want) or (bool(sharers) and same(d, st.own[cfg].get(s, {})))   # shared sidecars: permissive
                 run.check(ok, "C15.data_readback" if not sharers else "C15.data_readback_shared_sidecar",
                           {"sid": s, "cfg": cfg, "got": d, "want": want, "after": after, "sharers": sharers})
             if cfg == m.default_config:
